@@ -2,6 +2,7 @@ package main
 
 import (
 	"encoding/json"
+	"golang.org/x/tools/go/ssa"
 	"fmt"
 	"os"
 	"path/filepath"
@@ -134,6 +135,17 @@ func runDump(args []string) int {
 		if _, ok := P.Funcs[key]; !ok {
 			fmt.Println("no contract for", a)
 			continue
+		}
+		if fn := P.fnByKey[key]; fn != nil {
+			for h, li := range findLoops(fn) {
+				var phis []string
+				for _, in := range h.Instrs {
+					if phi, ok := in.(*ssa.Phi); ok {
+						phis = append(phis, phi.Name()+"#"+phi.Comment+":"+phi.Type().String())
+					}
+				}
+				fmt.Printf(";; loop %d header block %d at %s phis %v\n", li.ordinal, h.Index, posOf(fn, blockPos(h)), phis)
+			}
 		}
 		fv := P.BuildFuncVC(key)
 		fmt.Printf(";; %s mode=%s passes=%d err=%s\n", key, fv.Mode, fv.Passes, fv.Err)
